@@ -568,6 +568,21 @@ def _lockstep_scanner(f):
         n_step += 1
     if not n_step:
         return 'no path of the loop appends a character'
+    # between the loop and the return nothing rewrites the string or the index: the string
+    # returned is the source slice [start, end)
+    post = f.body[f.body.index(loop) + 1:]
+    try:
+        pc = symex.Walker(want_returns=True).run_block(post)
+    except symex.TooManyPaths:
+        return 'too many paths after the loop'
+    for cs in pc:
+        for v in (acc, idx):
+            nv = cs.env.get(v)
+            if v in cs.env and not (isinstance(nv, ast.AST) and unparse(nv) == v):
+                return 'after the scan %s is changed to %s on the path [%s]: the string returned is no longer ' \
+                       'the source text between the two positions returned with it' % (
+                           v, short(nv) if isinstance(nv, ast.AST) else 'another value',
+                           ' & '.join(cs.cond_src())[:80])
     return None
 
 
